@@ -341,6 +341,7 @@ func (p *Prog) Fn(name string) *ssa.Function {
 
 // roleFns: functions that are found by what they do when their name is gone.
 var roleFns = map[string]func(p *Prog) *ssa.Function{
+
 	// the connection worker: the one method of the connection that its constructor starts with a go statement
 	"(*server.wsConn).outputWorker": func(p *Prog) *ssa.Function {
 		ctor := p.fnNoRole("(*server.Service).newWSConn")
@@ -904,8 +905,17 @@ func (p *Prog) Method(q string) *types.Func {
 			names = append(names, n.Method(k).Name())
 		}
 	}
-	// a method that already had its name on the reference tree is itself, not somebody's renamed successor
-	if ref := refMethodNames(q[:i]); len(ref) > 0 {
+	{
+		// a method that already had its name on the reference tree is itself, not somebody's renamed successor —
+		// unless one name contains the other (populateResourcesLegacy merged into populateResources)
+		ref := refMethodNames(q[:i])
+		if j := similarName(q[i+1:], names); j >= 0 {
+			lw, lc := strings.ToLower(q[i+1:]), strings.ToLower(names[j])
+			if !ref[names[j]] || (len(lw) != len(lc) && (strings.Contains(lw, lc) || strings.Contains(lc, lw))) {
+				p.fuzzy = append(p.fuzzy, q+" -> "+names[j])
+				return ms[j]
+			}
+		}
 		var ms2 []*types.Func
 		var names2 []string
 		for k, nm := range names {
@@ -914,11 +924,10 @@ func (p *Prog) Method(q string) *types.Func {
 				names2 = append(names2, nm)
 			}
 		}
-		ms, names = ms2, names2
-	}
-	if j := similarName(q[i+1:], names); j >= 0 {
-		p.fuzzy = append(p.fuzzy, q+" -> "+names[j])
-		return ms[j]
+		if j2 := similarName(q[i+1:], names2); j2 >= 0 {
+			p.fuzzy = append(p.fuzzy, q+" -> "+names2[j2])
+			return ms2[j2]
+		}
 	}
 	// moved method: the one method of that exact name on another type of the same package
 	if _, isIface := n.Underlying().(*types.Interface); !isIface {
@@ -1081,4 +1090,31 @@ func refMethodNames(typ string) map[string]bool {
 		}
 	}
 	return out
+}
+
+func init() {
+	// the adapter's teardown: the one function that closes the message channel
+	roleFns["(*nats.Client).close"] = func(p *Prog) *ssa.Function {
+		ch := p.Field("nats.Client.mqCh")
+		if ch == nil {
+			return nil
+		}
+		var hit *ssa.Function
+		for _, g := range p.Repo {
+			if g.Pkg == nil || g.Pkg.Pkg.Name() != "nats" {
+				continue
+			}
+			for _, in := range instrsOf(g) {
+				if call, ok := isBuiltinCall(in, "close"); ok {
+					if f, _ := fieldLoad(call.Call.Args[0]); f == ch {
+						if hit != nil && hit != TopLevel(g) {
+							return nil
+						}
+						hit = TopLevel(g)
+					}
+				}
+			}
+		}
+		return hit
+	}
 }
